@@ -138,6 +138,11 @@ the check re-run on the unchanged tree with several seeds.
   the *first* segment from its first frame while the code counts it from time 0. The classification was corrected
   (`HlsTrace.tla`); the other report of that run (a segment file left behind after close, 1 of 120 runs) was genuine
   and repaired (1c8bde1).
+* **C12, thorough tier.** Three reports: a refused DESCRIBE of another path changes the path the session remembers (so a
+  later PLAY is answered 404, and a later RECORD publishes under that path), which `RtspSession.tla` treated as "a
+  refused request is not a step"; the statement only promises that for 455. The model now marks the session
+  dirty after such a refusal, and the driver uses a different missing path per sequence (a stream published there by
+  one sequence had made the path exist for the next one).
 * **C14.** "Header section with endless short lines" and "Content-Length that is not a number" were first judged as
   violations; the statement names the over-long *line* and the *absurd length*, so the former is observed only and
   the latter must merely not panic, hang or allocate.
